@@ -27,6 +27,8 @@ func init() {
 			{"C13.byte-counter", "every encoded element's byte count is added to the running offset", 6, c13ByteCounter},
 			{"C13.encode-counts", "the encoder counts every byte it writes", 20, c13EncodeCounts},
 			{"C13.outputs-truncated", "output files are created truncating (shared with C04/C05)", 10, func(c *Ctx) { c.outputsTruncated() }},
+			{"C13.no-stdout-in-library", "the library never prints to standard output (the archive may be written there)", 1, func(c *Ctx) { c.noStdoutInLibrary() }},
+			{"C13.mode-tables", "entry modes: file types compared under the type mask, conversions mutual inverses (shared with C05)", 3, c05ModeTables},
 			{"C13.grammar", "tar() emits Entry XAttr* (Payload|Symlink|Device|(Filename Child)* Goodbye)", 1, c13Grammar},
 			{"C13.codec", "encoder and decoder agree on every element type", 15, func(c *Ctx) { c.codecAgree(allElementTypes) }},
 		},
